@@ -394,8 +394,13 @@ def _row_contract(method: str, msg: str, oneofs: tuple) -> Any:
         physical type; an adapter without that row kind refuses it (C16: row kind the physical type forbids), and the
         GRAPHS adapter refuses a triple while no graph is open."""
         params = {"self": OBJ(DECODER + "@triples"), method.split("_")[1]: MSG(msg)}
-        variants = [{"self": OBJ(DECODER + "@triples")}, {"self": OBJ(DECODER + "@quads")}, {"self": OBJ(DECODER + "@graphs")}]
-        result = Sort("anyval")
+        # an adapter that has no handler for this row kind refuses every row: those variants have raising paths only
+        variants = [{"self": OBJ(DECODER + "@triples"), "$never_returns": method == "decode_quad"},
+                    {"self": OBJ(DECODER + "@quads"), "$never_returns": method == "decode_triple"},
+                    {"self": OBJ(DECODER + "@graphs"), "$never_returns": method == "decode_quad"}]
+        # what the adapter makes of the row: a Triple (generic term) or a Quad
+        result = staticmethod(lambda e: ADTS("gterm") if e.self.adapter.cls.name == "GenericTriplesAdapter"
+                              else NTUP(f"{GS}:Quad", ADTS("gterm"), ADTS("gterm"), ADTS("gterm"), ADTS("gterm")))
         modifies = ["self.repeated_terms", "self.names.last_reused_index", "self.names.T", "self.prefixes.last_reused_index",
                     "self.prefixes.T", "self.datatypes.last_reused_index", "self.datatypes.T"]
 
@@ -424,6 +429,9 @@ def _row_contract(method: str, msg: str, oneofs: tuple) -> Any:
             valid, terms = expected_terms(st, e.old.self, oneofs)
             acls = e.self.adapter.cls.name
             r = e.result
+            supported = {"decode_triple": ("GenericTriplesAdapter", "GenericGraphsAdapter"), "decode_quad": ("GenericQuadsAdapter",)}[method]
+            if acls not in supported:
+                return {"a-row-kind-the-adapter-has-no-handler-for-never-gets-through": False}
             out = {"tables-are-spec-tables": wf_dec(e.self)}
             if acls == "GenericGraphsAdapter":
                 items = list(r.items) + []
@@ -448,7 +456,7 @@ contract(f"{PD}:Decoder.decode_quad", serves=["C04", "C16", "C01", "C15"])(_row_
 @contract(f"{PD}:Decoder.decode_namespace_declaration", serves=["C14", "C04", "C16"])
 class _decode_ns:
     params = {"self": OBJ(DECODER), "declaration": MSG("RdfNamespaceDeclaration")}
-    result = Sort("anyval")
+    result = NTUP(f"{GS}:Prefix", STR, ADTS("gterm"))
     modifies = ["self.names.last_reused_index", "self.names.T", "self.prefixes.last_reused_index", "self.prefixes.T"]
 
     def requires(e): return wf_dec(e.self)
@@ -473,20 +481,32 @@ class _decode_ns:
 
 @contract(f"{PD}:Decoder.decode_graph_start", serves=["C04", "C16"])
 class _decode_graph_start:
+    """a graph-start row: the graph name is decoded by the spec rules and the GRAPHS adapter opens the graph; the adapters
+    of the other physical types have no such row (C16: row kind the physical type forbids) and refuse it"""
     params = {"self": OBJ(DECODER + "@graphs"), "graph_start": MSG("RdfGraphStart")}
+    variants = [{"self": OBJ(DECODER + "@graphs")}, {"self": OBJ(DECODER + "@triples"), "$never_returns": True},
+                {"self": OBJ(DECODER + "@quads"), "$never_returns": True}]
     modifies = ["self.adapter._graph_id", "self.names.last_reused_index", "self.names.T", "self.prefixes.last_reused_index",
                 "self.prefixes.T", "self.datatypes.last_reused_index", "self.datatypes.T"]
 
-    def requires(e): return wf_dec(e.self)
+    def requires(e):
+        from .options import known_logical, known_phys
+        stypes = e.self.adapter.options.items[0]
+        return And(wf_dec(e.self), known_phys(stypes.physical_type), known_logical(stypes.logical_type))
 
     def raises(e):
         sp = slot_spec(e.graph_start, "graph", e.self)
         bad = Or(sp["unset"], And(sp["iri"][0], Not(sp["iri"][1])), And(sp["literal"][0], Not(sp["literal"][1])))
-        return {ANY_DECODE_ERROR: bad}
+        out = {ANY_DECODE_ERROR: bad}
+        if e.self.adapter.cls.name != "GenericGraphsAdapter":
+            out["NotImplementedError"] = Not(bad)
+        return out
 
     def on_raise(e): return {"anything": True}
 
     def ensures(e):
+        if e.self.adapter.cls.name != "GenericGraphsAdapter":
+            return {"a-row-kind-the-adapter-has-no-handler-for-never-gets-through": False}
         sp = slot_spec(e.old.graph_start, "graph", e.old.self)
         g = e.self.adapter._graph_id
         cl = {"graph-open": Not(is_none(g)), "tables-are-spec-tables": wf_dec(e.self)}
@@ -496,3 +516,70 @@ class _decode_graph_start:
 
 
 inline(f"{PD}:Decoder.decode_graph_end")
+
+
+# ------------------------------------------------------------------------------------------------ Decoder.iter_rows
+from pyvc.contract import LoopSpec  # noqa: E402
+from pyvc.spec import which_tag  # noqa: E402
+
+inline(f"{PD}:Decoder.decode_graph_end")
+inline(f"{PD}:Decoder.validate_stream_options")     # seven asserts against the options the decoder was created with (A-NOOPT)
+ROW_ERRORS = ANY_DECODE_ERROR + ("AssertionError", "JellyAssertionError")
+ROW_KINDS = ("options", "triple", "quad", "graph_start", "graph_end", "namespace", "name", "prefix", "datatype")
+ITER_MOD = ["self.repeated_terms", "self.names", "self.prefixes", "self.datatypes"]
+
+
+def _rows_inv(e):
+    return {"tables-are-spec-tables": wf_dec(e.self)}
+
+
+def _rows_after(e):
+    """per row, relative to the decoder state at the start of the iteration (e.old):
+      - a row is handed to the caller exactly if it is a statement or a namespace declaration;
+      - an entry row performs exactly the spec's assignment of (id, value) to its own table;
+      - a triple row yields the triple of the terms the spec rules give for its slots."""
+    from .spec_tables import spec_assign, table_eq
+    ro = e.row_owner
+    kind = which_tag(ro, "row")
+    is_kind = lambda k: kind == ROW_KINDS.index(k) + 1  # noqa: E731
+    wanted = Or(is_kind("triple"), is_kind("quad"), is_kind("namespace"))
+    ys = e.iter_yields
+    out = {"statement-and-namespace-rows-are-yielded": Implies(wanted, len(ys) == 1),
+           "other-rows-yield-nothing": Implies(Not(wanted), len(ys) == 0)}
+    D, O = e.self, e.old.self
+    for k, tab in (("name", "names"), ("prefix", "prefixes"), ("datatype", "datatypes")):
+        ent = getattr(ro, k)
+        _valid, T2 = spec_assign(getattr(O, tab).T, ent.id, ent.value)
+        out[f"{k}-entry-row-is-the-spec-assignment"] = Implies(is_kind(k), table_eq(getattr(D, tab).T, T2))
+    if e.self.adapter.cls.name == "GenericTriplesAdapter" and len(ys) == 1 and z3.is_expr(ys[0]):
+        _v, terms = expected_terms(ro.triple, O, ("subject", "predicate", "object"))
+        allok = And(*[ok for _t, ok in terms])
+        out["triple-row-yields-the-spec-decoding"] = Implies(And(is_kind("triple"), allok), ys[0] == GTerm.QTriple(*[t for t, _ok in terms]))
+    return out
+
+
+def _iter_rows(adapter_shape: str, extra_mod: list) -> Any:
+    class C:
+        """C04/C16: for any sequence of rows the reader's tables stay coupled to the spec tables (each row is handled by
+        its own handler's contract); C07: a frame is nothing but its rows - no per-frame state is created, read or reset,
+        so how rows are cut into frames cannot matter to what is decoded."""
+        params = {"self": OBJ(DECODER + adapter_shape), "frame": MSG("RdfStreamFrame")}
+        yields = Sort("anyval")
+        modifies = ITER_MOD + extra_mod
+        loops = {0: LoopSpec(invariant=_rows_inv, after_each=_rows_after, modifies=ITER_MOD + extra_mod,
+                             elem=MSG("RdfStreamRow"))}
+
+        def requires(e):
+            from .options import known_logical, known_phys
+            stypes = e.self.adapter.options.items[0]
+            return And(wf_dec(e.self), known_phys(stypes.physical_type), known_logical(stypes.logical_type))
+
+        def raises(e): return {("?",) + ROW_ERRORS: True}
+        def on_raise(e): return {"anything": True}
+        def ensures(e): return {"tables-are-spec-tables": wf_dec(e.self)}
+    return C
+
+
+_IR = _iter_rows("@triples", ["self.adapter._graph_id"])
+_IR.variants = [{"self": OBJ(DECODER + "@triples")}, {"self": OBJ(DECODER + "@quads")}, {"self": OBJ(DECODER + "@graphs")}]
+contract(f"{PD}:Decoder.iter_rows", serves=["C04", "C16", "C07", "C10"])(_IR)
